@@ -20,7 +20,7 @@ ASSUMPTIONS = [
     "reference order vlib/ref/names.py (RFC 4034 §6.1: explicit A-Z fold table, reversed label tuples, relative < absolute)",
     "minimality of successor/predecessor is not demanded, only strict order / wrap to origin",
 ]
-REQUIRED = ["mon.pair_order", "mon.triple_transitivity", "mon.successor", "mon.predecessor", "mon.relativize_roundtrip", "mon.namedict"]
+REQUIRED = ["mon.relativize_roundtrip_relative_origin", "mon.pair_order", "mon.triple_transitivity", "mon.successor", "mon.predecessor", "mon.relativize_roundtrip", "mon.namedict"]
 BUDGET = {"quick": 40.0, "thorough": 420.0}
 
 ALPHA = b"@AZ[\\]^_`az{\x00\xff" + b"aAbBzZ" + b"0-*"
@@ -122,10 +122,16 @@ def check_pair(ctx, a, b):
             if na.parent() != nb:
                 ctx.violation("parent-disagrees-with-relation", f"{a!r} vs {b!r}", case)
         # relativize / derelativize round trip
-        if b and b[-1] == b"" and a and a[-1] == b"":
+        both_rel = not (a and a[-1] == b"") and not (b and b[-1] == b"")
+        if (b and b[-1] == b"" and a and a[-1] == b"") or both_rel:
+            # (absolute name, absolute origin) and (relative name, relative origin, the empty one included)
             ctx.count("mon.relativize_roundtrip")
+            if both_rel:
+                ctx.count("mon.relativize_roundtrip_relative_origin")
             r = na.relativize(nb)
-            back = r.derelativize(nb)
+            # (a relative name that is not under the relative origin stays as it is, and derelativizing any relative name
+            # appends the origin: the round trip is only defined for names under the origin there)
+            back = r.derelativize(nb) if not both_rel or rrel in ("SUBDOMAIN", "EQUAL") else na
             if back != na:
                 ctx.violation("relativize-derelativize-not-identity", f"{a!r} origin {b!r}: {r.labels!r} -> {back.labels!r}", case)
             if rrel in ("SUBDOMAIN", "EQUAL"):
